@@ -6,6 +6,13 @@ package main
 // from the start, following a forced prefix without solver queries, and at
 // each new symbolic decision asks the solver which directions are feasible,
 // continuing with one and queueing the other as a new work item.
+//
+// Solver side: one (push 1) per decision. When the next work item shares a
+// prefix of decisions with the path just finished (the usual case, because
+// each worker explores depth first from its own stack), the solver context
+// of that prefix is retained and nothing of it is re-sent; definitions are
+// named by the structural hash of the term so that names are stable across
+// re-executions.
 
 import (
 	"fmt"
@@ -55,7 +62,7 @@ type ReplayItem struct {
 }
 
 type Stats struct {
-	PathsNontrivial int
+	PathsNontrivial                                                         int
 	Paths, PathsOK, PathsAssumeEnd, PathsViolation, PathsError, PathsBudget int
 	AssertsChecked, AssertsSymbolic, AssertsConcrete                        int
 	Branches, Forks                                                         int
@@ -74,7 +81,7 @@ type Stats struct {
 type Explorer struct {
 	mu       sync.Mutex
 	cond     *sync.Cond
-	queue    []WorkItem
+	stacks   [][]WorkItem // one per worker
 	active   int
 	stop     bool
 	stats    Stats
@@ -85,26 +92,49 @@ type Explorer struct {
 	seenViol map[string]bool
 }
 
-func newExplorer(h string, maxPaths int, deadline time.Time) *Explorer {
+func newExplorer(h string, nworkers int, maxPaths int, deadline time.Time) *Explorer {
 	e := &Explorer{harness: h, maxPaths: maxPaths, deadline: deadline, maxViol: 40}
 	e.cond = sync.NewCond(&e.mu)
-	e.queue = []WorkItem{{}}
+	e.stacks = make([][]WorkItem, nworkers)
+	e.stacks[0] = []WorkItem{{}}
 	e.stats.Errors = map[string]int{}
 	e.stats.Funcs = map[string]bool{}
 	e.stats.Stubs = map[string]int{}
 	return e
 }
 
-func (e *Explorer) take() (WorkItem, bool) {
+func (e *Explorer) queued() int {
+	n := 0
+	for _, s := range e.stacks {
+		n += len(s)
+	}
+	return n
+}
+
+func (e *Explorer) take(id int) (WorkItem, bool) {
 	e.mu.Lock()
 	defer e.mu.Unlock()
 	for {
 		if e.stop {
 			return WorkItem{}, false
 		}
-		if len(e.queue) > 0 {
-			it := e.queue[len(e.queue)-1]
-			e.queue = e.queue[:len(e.queue)-1]
+		if s := e.stacks[id]; len(s) > 0 {
+			it := s[len(s)-1]
+			e.stacks[id] = s[:len(s)-1]
+			e.active++
+			return it, true
+		}
+		// steal the shallowest item of the fullest stack
+		best := -1
+		for i, s := range e.stacks {
+			if len(s) > 0 && (best < 0 || len(s) > len(e.stacks[best])) {
+				best = i
+			}
+		}
+		if best >= 0 {
+			s := e.stacks[best]
+			it := s[0]
+			e.stacks[best] = s[1:]
 			e.active++
 			return it, true
 		}
@@ -119,19 +149,54 @@ func (e *Explorer) take() (WorkItem, bool) {
 func (e *Explorer) done() {
 	e.mu.Lock()
 	e.active--
-	if e.active == 0 && len(e.queue) == 0 {
+	if e.active == 0 && e.queued() == 0 {
 		e.cond.Broadcast()
 	}
 	e.mu.Unlock()
 }
 
-func (e *Explorer) push(it WorkItem) {
+func (e *Explorer) push(id int, it WorkItem) {
 	e.mu.Lock()
-	e.queue = append(e.queue, it)
+	e.stacks[id] = append(e.stacks[id], it)
 	e.stats.Forks++
 	e.cond.Signal()
 	e.mu.Unlock()
 }
+
+// solverCtx mirrors what the solver currently holds: levels[k] is what was
+// sent after the k-th push (level 0: before any decision); push k+1 is the
+// one of decisions[k].
+type solverCtx struct {
+	decisions []Decision
+	levels    []*ctxLevel
+	defined   map[string]uint64
+	fresh     bool
+}
+
+type ctxLevel struct {
+	names []string
+	text  strings.Builder
+}
+
+func (w *Worker) resetCtx() {
+	c := &w.ctx
+	c.decisions = nil
+	c.levels = []*ctxLevel{{}}
+	c.defined = map[string]uint64{}
+	c.fresh = true
+	w.solver.send("(reset)\n(set-option :produce-models true)\n")
+	if w.solver.name == "cvc5" {
+		w.solver.send("(set-logic ALL)\n")
+	}
+	if w.cross != nil {
+		w.cross.send("(reset)\n(set-option :produce-models true)\n")
+		if w.cross.name == "cvc5" {
+			w.cross.send("(set-logic ALL)\n")
+		}
+	}
+}
+
+func (c *solverCtx) top() *ctxLevel { return c.levels[len(c.levels)-1] }
 
 // Path is the per-path symbolic state.
 type Path struct {
@@ -139,6 +204,7 @@ type Path struct {
 	forced     []Decision
 	pos        int
 	taken      []Decision
+	suppress   int      // levels 0..suppress are already in the solver context (-1: none)
 	pending    []string // SMT commands not yet sent
 	vars       []*Term
 	nondets    []NondetEntry
@@ -150,16 +216,93 @@ type Path struct {
 	asserts    int
 	symAsrt    int
 	reached    bool
-	imprecise  string
 	ghost      []string
 	ufDeclared map[string]bool
+	facts      map[uint64]factVal
+}
+
+type factVal struct {
+	h2  uint64
+	val bool
+}
+
+// newPath prepares the solver context for a path with the given forced trail.
+func (w *Worker) newPath(forced []Decision) *Path {
+	p := &Path{w: w, forced: forced}
+	c := &w.ctx
+	if c.levels == nil {
+		w.resetCtx()
+	}
+	if c.fresh {
+		c.fresh = false
+		p.suppress = -1
+	} else {
+		// longest common prefix with the retained context
+		n := 0
+		for n < len(forced) && n < len(c.decisions) && forced[n] == c.decisions[n] {
+			n++
+		}
+		if n == len(forced) {
+			// cannot happen for alternatives (each is taken once); be safe: reuse nothing
+			w.resetCtx()
+			c.fresh = false
+			p.suppress = -1
+		} else {
+			if pop := len(c.decisions) - n; pop > 0 {
+				for _, lv := range c.levels[n+1:] {
+					for _, nm := range lv.names {
+						delete(c.defined, nm)
+					}
+				}
+				c.levels = c.levels[:n+1]
+				c.decisions = c.decisions[:n]
+				w.solver.send(fmt.Sprintf("(pop %d)\n", pop))
+			}
+			p.suppress = n
+		}
+	}
+	p.pr = &printer{defined: c.defined, onDef: func(name string) {
+		lv := c.top()
+		lv.names = append(lv.names, name)
+	}}
+	return p
+}
+
+func (p *Path) suppressed() bool { return len(p.taken) <= p.suppress }
+
+func (p *Path) emit(cmd string) {
+	if p.suppressed() {
+		return
+	}
+	p.pending = append(p.pending, cmd)
+}
+
+// decide records a decision and opens a solver level for it.
+func (p *Path) decide(d Decision) {
+	p.taken = append(p.taken, d)
+	if len(p.taken) <= p.suppress {
+		return
+	}
+	p.flush()
+	c := &p.w.ctx
+	p.w.solver.send("(push 1)\n")
+	c.decisions = append(c.decisions, d)
+	c.levels = append(c.levels, &ctxLevel{})
+}
+
+// finish leaves the solver context consistent with the bookkeeping.
+func (p *Path) finish() {
+	if !p.suppressed() {
+		p.flush()
+	}
+	p.pending = p.pending[:0]
 }
 
 func (p *Path) declare(t *Term) {
 	p.vars = append(p.vars, t)
-	p.pending = append(p.pending, fmt.Sprintf("(declare-const %s %s)\n", t.raw, t.sort))
+	p.emit(fmt.Sprintf("(declare-const %s %s)\n", t.raw, t.sort))
 	if t.sort == SInt && t.lo != nil && t.hi != nil {
-		p.pending = append(p.pending, fmt.Sprintf("(assert (and (<= %s %s) (<= %s %s)))\n", smtInt(t.lo), t.raw, t.raw, smtInt(t.hi)))
+		p.emit(fmt.Sprintf("(assert (and (<= %s %s) (<= %s %s)))\n", smtInt(t.lo), t.raw, t.raw, smtInt(t.hi)))
 	}
 	p.modelOK = false
 }
@@ -200,11 +343,157 @@ func (p *Path) freshFP() *Term {
 func (p *Path) termStr(t *Term) string {
 	var defs strings.Builder
 	p.pr.out = &defs
+	if p.suppressed() {
+		// every definition needed here is already in the retained context
+		before := len(p.pr.defined)
+		s := p.pr.str(t)
+		if len(p.pr.defined) != before {
+			panic(engineError{"internal: definition missing from the retained solver context"})
+		}
+		return s
+	}
 	s := p.pr.str(t)
 	if defs.Len() > 0 {
 		p.pending = append(p.pending, defs.String())
 	}
 	return s
+}
+
+// learn records an asserted condition: atoms go to the fact cache (so that
+// the same question is never asked twice on a path) and bounds on variables
+// tighten the variable's interval.
+func (p *Path) learn(t *Term, val bool) {
+	if t.isConst() {
+		return
+	}
+	switch t.op {
+	case "not":
+		p.learn(t.args[0], !val)
+		return
+	case "and":
+		if val {
+			p.learn(t.args[0], true)
+			p.learn(t.args[1], true)
+			return
+		}
+	case "or":
+		if !val {
+			p.learn(t.args[0], false)
+			p.learn(t.args[1], false)
+			return
+		}
+	}
+	if p.facts == nil {
+		p.facts = map[uint64]factVal{}
+	}
+	h1, h2 := t.hash()
+	p.facts[h1] = factVal{h2, val}
+	// var-vs-const bounds
+	if len(t.args) == 2 && t.args[0].sort == SInt {
+		a, b := t.args[0], t.args[1]
+		op := t.op
+		if a.isConst() && b.op == "var" {
+			a, b = b, a
+			switch op {
+			case "<":
+				op = ">"
+			case "<=":
+				op = ">="
+			case ">":
+				op = "<"
+			case ">=":
+				op = "<="
+			}
+		}
+		if a.op == "var" && b.isConst() {
+			if !val {
+				switch op {
+				case "<":
+					op = ">="
+				case "<=":
+					op = ">"
+				case ">":
+					op = "<="
+				case ">=":
+					op = "<"
+				case "=":
+					op = "!="
+				}
+			}
+			c := b.val
+			switch op {
+			case "<":
+				tightenHi(a, new(big.Int).Sub(c, big1))
+			case "<=":
+				tightenHi(a, c)
+			case ">":
+				tightenLo(a, new(big.Int).Add(c, big1))
+			case ">=":
+				tightenLo(a, c)
+			case "=":
+				tightenLo(a, c)
+				tightenHi(a, c)
+			case "!=":
+				if a.lo != nil && a.lo.Cmp(c) == 0 {
+					a.lo = new(big.Int).Add(c, big1)
+				}
+				if a.hi != nil && a.hi.Cmp(c) == 0 {
+					a.hi = new(big.Int).Sub(c, big1)
+				}
+			}
+		}
+	}
+}
+
+func tightenHi(v *Term, c *big.Int) {
+	if v.hi == nil || c.Cmp(v.hi) < 0 {
+		v.hi = c
+	}
+}
+func tightenLo(v *Term, c *big.Int) {
+	if v.lo == nil || c.Cmp(v.lo) > 0 {
+		v.lo = c
+	}
+}
+
+// known returns the truth value of c if it follows syntactically from what
+// was asserted on this path.
+func (p *Path) known(c *Term) (bool, bool) {
+	if c.isConst() {
+		return c.bval, true
+	}
+	if p.facts != nil {
+		h1, h2 := c.hash()
+		if f, ok := p.facts[h1]; ok && f.h2 == h2 {
+			return f.val, true
+		}
+	}
+	switch c.op {
+	case "not":
+		v, ok := p.known(c.args[0])
+		return !v, ok
+	case "and":
+		a, oka := p.known(c.args[0])
+		b, okb := p.known(c.args[1])
+		if (oka && !a) || (okb && !b) {
+			return false, true
+		}
+		return true, oka && okb
+	case "or":
+		a, oka := p.known(c.args[0])
+		b, okb := p.known(c.args[1])
+		if (oka && a) || (okb && b) {
+			return true, true
+		}
+		return false, oka && okb
+	case "<", "<=", ">", ">=", "=":
+		if c.args[0].sort == SInt {
+			if r, ok := cmpFold(c.op, c.args[0], c.args[1]); ok {
+				return r.bval, true
+			}
+		}
+	}
+	return false, false
 }
 
 func (p *Path) assertTerm(t *Term) {
@@ -214,8 +503,9 @@ func (p *Path) assertTerm(t *Term) {
 		}
 		return
 	}
+	p.learn(t, true)
 	s := p.termStr(t)
-	p.pending = append(p.pending, "(assert "+s+")\n")
+	p.emit("(assert " + s + ")\n")
 	if p.modelOK {
 		if v, ok := p.model.evalBool(t); !ok || !v {
 			p.modelOK = false
@@ -227,20 +517,21 @@ func (p *Path) flush() {
 	if len(p.pending) == 0 {
 		return
 	}
-	s := p.w.solver
 	txt := strings.Join(p.pending, "")
-	s.send(txt)
+	p.w.solver.send(txt)
 	if p.w.cross != nil {
-		p.w.pathLog.WriteString(txt)
+		p.w.ctx.top().text.WriteString(txt)
 	}
 	p.pending = p.pending[:0]
 }
 
-// check asks whether pc ∧ c is satisfiable. On Sat it refreshes p's model
-// only when keepModel is set (i.e. the caller is going to assert c).
+// check asks whether pc ∧ c is satisfiable.
 func (p *Path) check(c *Term, wantModel bool) (Verdict, Model) {
 	if c.isConst() && !c.bval {
 		return Unsat, nil
+	}
+	if p.suppressed() {
+		panic(engineError{"internal: solver query inside the retained prefix"})
 	}
 	cs := p.termStr(c)
 	p.flush()
@@ -258,7 +549,7 @@ func (p *Path) check(c *Term, wantModel bool) (Verdict, Model) {
 		}
 	}
 	if p.w.cross != nil && (v != Sat || p.w.crossAll) {
-		p.crossCheck(c, v)
+		p.crossCheck(cs, v)
 	}
 	return v, m
 }
@@ -279,18 +570,22 @@ func (p *Path) fetchModel() Model {
 }
 
 // crossCheck re-runs the query pc ∧ c from scratch on the second back end.
-func (p *Path) crossCheck(c *Term, v Verdict) {
+func (p *Path) crossCheck(cs string, v Verdict) {
 	w := p.w
 	if !w.crossAll {
 		w.crossCtr++
-		if w.crossCtr%20 != 0 && v != Sat {
+		if w.crossCtr%20 != 0 {
 			return
 		}
 	}
-	cs := p.termStr(c)
-	p.flush()
 	cx := w.cross
-	cx.send("(push 1)\n" + w.pathLog.String() + "(assert " + cs + ")\n")
+	var sb strings.Builder
+	sb.WriteString("(push 1)\n")
+	for _, lv := range w.ctx.levels {
+		sb.WriteString(lv.text.String())
+	}
+	sb.WriteString("(assert " + cs + ")\n")
+	cx.send(sb.String())
 	v2 := cx.checkSat()
 	cx.send("(pop 1)\n")
 	cx.lastErr = ""
@@ -302,16 +597,27 @@ func (p *Path) crossCheck(c *Term, v Verdict) {
 	w.ex.mu.Unlock()
 }
 
+func (p *Path) pushAlt(d Decision) {
+	alt := make([]Decision, len(p.taken)+1)
+	copy(alt, p.taken)
+	alt[len(p.taken)] = d
+	p.w.ex.push(p.w.id, WorkItem{trail: alt})
+}
+
 // Branch decides a symbolic condition for this path.
 func (p *Path) Branch(c *Term) bool {
 	if c.isConst() {
 		return c.bval
 	}
+	if v, ok := p.known(c); ok {
+		p.w.knownBranches++
+		return v
+	}
 	p.w.branches++
 	if p.pos < len(p.forced) {
 		d := p.forced[p.pos]
 		p.pos++
-		p.taken = append(p.taken, d)
+		p.decide(d)
 		if d.Dir {
 			p.assertTerm(c)
 		} else {
@@ -354,12 +660,9 @@ func (p *Path) Branch(c *Term) bool {
 	}
 	dir := okT
 	if okT && okF {
-		alt := make([]Decision, len(p.taken)+1)
-		copy(alt, p.taken)
-		alt[len(p.taken)] = Decision{Dir: false}
-		p.w.ex.push(WorkItem{trail: alt})
+		p.pushAlt(Decision{Dir: false})
 	}
-	p.taken = append(p.taken, Decision{Dir: dir})
+	p.decide(Decision{Dir: dir})
 	if dir {
 		p.assertTerm(c)
 		p.model, p.modelOK = mT, mT != nil
@@ -376,10 +679,13 @@ func (p *Path) Concretize(t *Term) int64 {
 		if t.isConst() {
 			return t.val.Int64()
 		}
+		if t.lo != nil && t.hi != nil && t.lo.Cmp(t.hi) == 0 && t.lo.IsInt64() {
+			return t.lo.Int64()
+		}
 		if p.pos < len(p.forced) {
 			d := p.forced[p.pos]
 			p.pos++
-			p.taken = append(p.taken, d)
+			p.decide(d)
 			eq := tEq(t, intConst(d.Val))
 			if d.Dir {
 				p.assertTerm(eq)
@@ -407,7 +713,6 @@ func (p *Path) Concretize(t *Term) int64 {
 			if iv, ok := m.evalInt(t); ok {
 				cand = iv
 			} else {
-				// ask the solver directly for the term's value
 				cand = p.solverValue(t)
 			}
 		}
@@ -415,18 +720,21 @@ func (p *Path) Concretize(t *Term) int64 {
 			panic(engineError{"concretize: value out of int64"})
 		}
 		cv := cand.Int64()
-		p.pos++
 		eq := tEq(t, intConst(cv))
-		// is another value possible?
-		vOther, mOther := p.check(tNot(eq), true)
-		if vOther != Unsat {
-			alt := make([]Decision, len(p.taken)+1)
-			copy(alt, p.taken)
-			alt[len(p.taken)] = Decision{Dir: false, Val: cv}
-			p.w.ex.push(WorkItem{trail: alt})
-			_ = mOther
+		if eq.isConst() {
+			if eq.bval {
+				return cv
+			}
+			p.modelOK = false
+			continue
 		}
-		p.taken = append(p.taken, Decision{Dir: true, Val: cv})
+		p.pos++
+		// is another value possible?
+		vOther, _ := p.check(tNot(eq), false)
+		if vOther != Unsat {
+			p.pushAlt(Decision{Dir: false, Val: cv})
+		}
+		p.decide(Decision{Dir: true, Val: cv})
 		p.assertTerm(eq)
 		return cv
 	}
@@ -439,7 +747,6 @@ func (p *Path) solverValue(t *Term) *big.Int {
 	p.flush()
 	s := p.w.solver
 	s.send("(check-sat)\n")
-	// consume verdict
 	for {
 		line, err := s.out.ReadString('\n')
 		if err != nil {
@@ -478,17 +785,14 @@ func (p *Path) Choice(n int) int {
 	if p.pos < len(p.forced) {
 		d := p.forced[p.pos]
 		p.pos++
-		p.taken = append(p.taken, d)
+		p.decide(d)
 		return int(d.Val)
 	}
 	p.pos++
 	for k := n - 1; k >= 1; k-- {
-		alt := make([]Decision, len(p.taken)+1)
-		copy(alt, p.taken)
-		alt[len(p.taken)] = Decision{Dir: true, Val: int64(k)}
-		p.w.ex.push(WorkItem{trail: alt})
+		p.pushAlt(Decision{Dir: true, Val: int64(k)})
 	}
-	p.taken = append(p.taken, Decision{Dir: true, Val: 0})
+	p.decide(Decision{Dir: true, Val: 0})
 	return 0
 }
 
@@ -500,8 +804,16 @@ func (p *Path) Assume(c *Term) {
 		}
 		return
 	}
+	if v, ok := p.known(c); ok {
+		if !v {
+			panic(pathEnd{"assumption contradicts the path condition"})
+		}
+		return
+	}
 	if p.pos < len(p.forced) {
-		// inside the forced prefix feasibility was established by the parent... only for decisions.
+		// a later forced decision exists: the ancestor path already showed feasibility
+		p.assertTerm(c)
+		return
 	}
 	if p.modelOK {
 		if v, ok := p.model.evalBool(c); ok && v {
@@ -528,6 +840,14 @@ func (p *Path) CheckAssert(c *Term, kind, msg, where string) {
 		panic(violationEnd{})
 	}
 	p.symAsrt++
+	if v, ok := p.known(c); ok && v {
+		return
+	}
+	if p.pos < len(p.forced) {
+		// discharged by the ancestor path that created this work item
+		p.assertTerm(c)
+		return
+	}
 	v, _ := p.check(tNot(c), true)
 	switch v {
 	case Sat:
@@ -541,7 +861,9 @@ func (p *Path) CheckAssert(c *Term, kind, msg, where string) {
 
 func (p *Path) violation(kind, msg, where string, vals map[string]ModelVal) {
 	if vals == nil {
-		// need any model of the path condition
+		if p.suppressed() || p.pos < len(p.forced) {
+			return // reported by the ancestor already
+		}
 		v, _ := p.check(trueT2(), true)
 		if v == Sat {
 			vals = p.w.lastVals
